@@ -7,7 +7,7 @@ Extraction Language OCaml.
 Extraction "model.ml" Z.add Z.mul Z.opp Z.of_N Z.to_N N.add N.of_nat N.to_nat
   is_valid_tag build_tag register_tag all_tags
   bytes_eqb escape sanitize unescape
-  clear_expired
+  clear_expired run_phases
   builtin_levels parse_range deliver_refs deliver_simple deliver_rolling log_via entry_level
   refresh_tags route trim_space
   num_of_int f_bool f_int f_uint f_float f_string f_nil f_reflect f_any f_object f_array f_from_map msg_key
